@@ -546,6 +546,10 @@ def step2(prs, pin, pin_problems, acc, witness, label, kinds):
         if p not in mapping:
             bad("step2-lost-part", "%s is reachable in the input, not through the relationships of the second save" % p)
     core = [r for r in pout.rels("/") or [] if r.type == RT_CORE]
+    if not core:
+        # (a deck may relate its core-properties part by the first-edition type - tests/test_files/test_slides.pptx carries both;
+        # with the standard one cut away that part IS the package's core properties, and no second one is to be made)
+        core = [r for r in pout.rels("/") or [] if r.type == RT_CORE.replace("/package/2006/relationships/", "/officedocument/2006/relationships/")]
     if len(core) != 1 or not pout.has_part(core[0].target) or pout.ctype(core[0].target) != CT_CORE:
         bad("core-properties-not-provided", "after prs.core_properties the second save has %d core-properties relationship(s)" % len(core))
     elif not had_core:
